@@ -113,14 +113,14 @@ Proof.
   - pose proof (sys_write_bits o (op_len p - op_sofar p)) as Hw.
     destruct (sys_write o (op_len p - op_sofar p)) as [o1 r]. cbn in Hw. subst o1.
     destruct r.
-    + destruct (op_all p && negb (op_sofar p + n =? op_len p)); [rewrite IH; apply Hb; reflexivity|cbn; apply Hb; reflexivity].
+    + destruct (op_all p && negb (op_sofar p + n =? op_len p) && negb (is_pkt o)); [rewrite IH; apply Hb; reflexivity|cbn; apply Hb; reflexivity].
     + cbn; apply Hb; reflexivity.
     + eapply schedule_gap; eauto.
     + cbn; apply Hb; reflexivity.
   - pose proof (sys_read_bits o (op_len p - op_sofar p)) as (Hw & HR & HW).
     destruct (sys_read o (op_len p - op_sofar p)) as [o1 r]. cbn in Hw, HR, HW.
     destruct r.
-    + destruct (op_all p && negb (op_sofar p + n =? op_len p)); [rewrite IH; apply Hb; exact Hw|cbn; apply Hb; exact Hw].
+    + destruct (op_all p && negb (op_sofar p + n =? op_len p) && negb (is_pkt o)); [rewrite IH; apply Hb; exact Hw|cbn; apply Hb; exact Hw].
     + cbn; apply Hb; exact Hw.
     + eapply schedule_gap; eauto.
     + cbn; apply Hb; exact Hw.
@@ -198,7 +198,7 @@ Proof.
   destruct a; cbn [do_action].
   - (* AStart *)
     destruct (lookup o (l_objs s)) as [ob|] eqn:Hl; [|reflexivity].
-    set (p := mkop cb all len 0).
+    set (p := mkop cb all len 0 false).
     set (o0 := if write then with_wr ob (Some p) (o_evW ob) (o_reg ob) else with_rd ob (Some p) (o_evR ob) (o_reg ob)).
     assert (Hw0 : wobj o0 = wobj ob) by (unfold o0; destruct write; reflexivity).
     destruct (l_disp (add_log s (LStart cb o write all len)) <? sonic_MaxCallbackDispatch).
@@ -384,7 +384,7 @@ Proof.
   - destruct (lookup i (l_objs s)) as [o|] eqn:Hl; [|right; split; [reflexivity|right; right; reflexivity]].
     destruct (if w then sys_write o (op_len p - op_sofar p) else sys_read o (op_len p - op_sofar p)) as [o1 r].
     destruct r.
-    + destruct (op_all p && negb (op_sofar p + n =? op_len p)).
+    + destruct (op_all p && negb (op_sofar p + n =? op_len p) && negb (is_pkt o)).
       * specialize (IH (set_obj s i o1) i w (set_sofar p (op_sofar p + n)) wrapped).
         destruct IH as [(e & m & H)|(H1 & H2)]; [left; exists e, m; exact H|].
         right. split; [exact H1|]. destruct H2 as [H2|[H2|H2]]; auto.
@@ -397,7 +397,7 @@ Qed.
 
 Lemma on_event_read_outcome s i o p :
   o_rd o = Some p ->
-  (exists e n, snd (on_event s i o false xNil) = [IInvoke (op_cb p) e n false]) \/
+  (exists e n wr, snd (on_event s i o false xNil) = [IInvoke (op_cb p) e n wr]) \/
   (snd (on_event s i o false xNil) = [] /\
    (armed (fst (on_event s i o false xNil)) i false \/ l_fuel_out (fst (on_event s i o false xNil)) = true)).
 Proof.
@@ -407,14 +407,14 @@ Proof.
                  (set_obj s i o2, [IInvoke (op_cb p) (match r with SGot _ => xNil | SEof => xEOF | SWouldBlock => xWouldBlock | SFail e => e end)
                                      (match r with SGot n => n | _ => 0 end) false])) = [IInvoke (op_cb p) e n false]).
   { intros o1. destruct (sys_read o1 0) as [o2 r]. eexists; eexists; reflexivity. }
-  destruct (o_kind o); try (left; apply Hlsn).
+  destruct (o_kind o); try (left; match goal with |- context [sys_read ?o1 0] => destruct (Hlsn o1) as (e & n & H) end; exists e, n, false; exact H).
   all: clear Hlsn.
-  all: match goal with |- context [io_now 64 ?st ?ii false ?pp false] =>
-    pose proof (io_now_outcome 64 st ii false pp false) as Hout;
+  all: match goal with |- context [io_now 64 ?st ?ii false ?pp ?ww] =>
+    pose proof (io_now_outcome 64 st ii false pp ww) as Hout;
     assert (Hlk : lookup ii (l_objs st) <> None) by (rewrite lookup_set_obj; discriminate);
-    generalize dependent (io_now 64 st ii false pp false) end.
+    generalize dependent (io_now 64 st ii false pp ww) end.
   all: intros r Hout; destruct Hout as [(e & n & H)|(H1 & H2)];
-    [left; exists e, n; exact H
+    [left; exists e, n; eexists; exact H
     |right; split; [exact H1|]; destruct H2 as [H2|[H2|H2]]; [left; exact H2|right; exact H2|contradiction]].
 Qed.
 
@@ -424,7 +424,7 @@ Theorem ready_read_is_dispatched s i o p mask :
   lookup i (l_objs s) = Some o -> o_evR o = true -> o_rd o = Some p ->
   has mask mIN || has mask mHUP || has mask mERR = true ->
   exists items, snd (poll_entry s (0, i, mask)) = items ++ (if has mask mOUT || (has mask mHUP || has mask mERR) then [IPollWrite i] else []) /\
-    ((exists e n, items = [IInvoke (op_cb p) e n false]) \/
+    ((exists e n wr, items = [IInvoke (op_cb p) e n wr]) \/
      (items = [] /\ (armed (fst (poll_entry s (0, i, mask))) i false \/ l_fuel_out (fst (poll_entry s (0, i, mask))) = true))).
 Proof.
   intros Hl HR Hrd Hm. unfold poll_entry. cbn [Z.eqb]. rewrite Hl, HR.
@@ -441,7 +441,7 @@ Qed.
 (* Cancel completes an in-flight read exactly once, with the cancellation error *)
 Theorem cancel_completes_read s i o p :
   lookup i (l_objs s) = Some o -> o_evR o = true -> o_rd o = Some p -> ctl_ok o = true ->
-  snd (do_action s (ACancel i)) = [IInvoke (op_cb p) xCancelled (op_sofar p) false; ICancelWrites i] /\
+  snd (do_action s (ACancel i)) = [IInvoke (op_cb p) xCancelled (op_sofar p) (is_pkt o && op_wrapped p); ICancelWrites i] /\
   exists o', lookup i (l_objs (fst (do_action s (ACancel i)))) = Some o' /\ o_evR o' = false.
 Proof.
   intros Hl HR Hrd Hk. cbn [do_action]. rewrite Hl, HR, Hk.
